@@ -145,7 +145,7 @@ def can_split(
             return False
         rest = node.content.cut_by_index(index, node.child_count)
 
-        if types_after and len(types_after) > i + 1:
+        if types_after and len(types_after) > i + 1 and types_after[i + 1]:
             override_child = types_after[i + 1]
             rest = rest.replace_child(
                 0,
